@@ -101,11 +101,12 @@ template<int L, class T, glm::qualifier Q> void run_q(Case<T> const& cs) {
     if constexpr (L == 2) only2<T, Q>(cs);
     if constexpr (L == 3) only3<T, Q>(cs);
 }
-// every case through highp; every `stride`-th also through mediump and lowp; L = 1 also through the scalar overloads
+// every case through highp; every 10th (thorough: 5th) also through mediump and through lowp; L = 1 also through the scalar overloads
 template<int L, class T> void run_case(Case<T> const& cs, uint64_t idx) {
     run_q<L, T, glm::highp>(cs);
-    if (idx % 5 == 1) run_q<L, T, glm::mediump>(cs);
-    if (idx % 5 == 3) run_q<L, T, glm::lowp>(cs);
+    const uint64_t per = g_thorough ? 5 : 10;
+    if (idx % per == 1) run_q<L, T, glm::mediump>(cs);
+    if (idx % per == 3) run_q<L, T, glm::lowp>(cs);
     if constexpr (L == 1) core_scalar<T>(cs);
 }
 
